@@ -28,6 +28,13 @@ CONFIGS = [('poly-pen0-trans', 0, 0, 1), ('poly-pen0-notrans', 0, 0, 0), ('poly-
 # angle, distance and VertID), in dense scenes with mostly shape moves / adds after the connectors exist
 SHARED_CONFIGS = [('shared-poly-pen0-trans', 0, 0, 1), ('shared-poly-pen0-notrans', 0, 0, 0), ('shared-poly-pen10-trans', 0, 10, 1),
                   ('shared-orth-trans', 1, 10, 1)]
+# directed families (checks/avoid_lib.py): "noop" = moves that leave a shape's polygon unchanged (zero move, self-cancelling relative moves, move to the
+# same polygon, there and back) after connectors detour round it; "addmove" = add + 1-2 moves + a RELATIVE move of one shape in ONE transaction
+# (the queue model composes relative moves on the polygon held by the queued add); "only" = transactions that contain only deletions / only
+# additions / only endpoint changes (the static orthogonal visibility graph must be rebuilt after each of them)
+NOOP_CONFIGS = [('noop-poly-pen0-trans', 0, 0, 1), ('noop-poly-pen0-notrans', 0, 0, 0), ('noop-poly-pen10-trans', 0, 10, 1), ('noop-orth-trans', 1, 10, 1)]
+ADDMOVE_CONFIGS = [('addmove-poly-pen0-trans', 0, 0, 1), ('addmove-orth-trans', 1, 10, 1), ('addmove-poly-pen10-trans', 0, 10, 1), ('addmove-poly-pen0-notrans', 0, 0, 0)]
+ONLY_CONFIGS = [('only-orth-trans', 1, 10, 1), ('only-orth-pen50-trans', 1, 50, 1), ('only-orth-notrans', 1, 10, 0), ('only-poly-pen0-trans', 0, 0, 1)]
 CONTAINS_CONFIGS = [('contains-poly-pen0-trans', 0, 0, 1), ('contains-poly-pen0-notrans', 0, 0, 0), ('contains-poly-pen10-trans', 0, 10, 1),
                     ('contains-orth-trans', 1, 10, 1), ('contains-orth-notrans', 1, 10, 0)]
 
@@ -186,7 +193,9 @@ def gen_history(rng, trans, orth, w_add=28, w_move=30, w_resize=10, w_del=17, sh
                         break
         elif r < w_add + w_move:
             i = rng.choice(sorted(shapes))
-            for _ in range(30):
+            if rng.chance(1, 8):
+                done = try_op(('M', i, 0, 0))          # a move that changes nothing
+            for _ in range(0 if done else 30):
                 if try_op(('M', i, rng.range(-15, 15), rng.range(-15, 15))):
                     done = True
                     break
@@ -474,7 +483,7 @@ def shrink(exe, drv, qdrv, h, kind):
 def new_stats():
     return {'histories': 0, 'by_config': {}, 'ops_hist': {}, 'op_kinds': {}, 'scene_checks': 0, 'noop_checks': 0, 'comparisons': 0,
             'nontrivial': set(), 'known_degenerate_chord': 0, 'corpus': 0, 'contains_comparisons': 0, 'contains_endpoint_inside_now': 0,
-            'contains_left_behind_endpoint': 0, 'contains_left_behind_nontrivial': 0, 'contains_variants': {}}
+            'contains_left_behind_endpoint': 0, 'contains_left_behind_nontrivial': 0, 'contains_variants': {}, 'directed_variants': {}}
 
 
 def report(res, exe, drv, qdrv, fails, stats, do_shrink=True):
@@ -593,6 +602,19 @@ def run(tier):
             for t in tags:
                 stats['contains_variants'][t] = stats['contains_variants'].get(t, 0) + 1
             hists.append(dict(cfg=name, mode=mode, pen=pen, trans=trans, ops=ops, generic=True, family='contains'))
+    for fam, cfgs, gen, n in (('noop', NOOP_CONFIGS, A.gen_noop_move_history, 10 if tier == 'quick' else 100),
+                              ('addmove', ADDMOVE_CONFIGS, A.gen_addmove_history, 8 if tier == 'quick' else 80),
+                              ('only', ONLY_CONFIGS, A.gen_homogeneous_history, 14 if tier == 'quick' else 120)):
+        for (name, mode, pen, trans) in cfgs:
+            k = 0
+            while k < n:
+                ops, tags = gen(rng, rect_only=(mode == 1))
+                if ops is None:
+                    continue
+                k += 1
+                for t in tags:
+                    stats['directed_variants'][fam + ':' + t] = stats['directed_variants'].get(fam + ':' + t, 0) + 1
+                hists.append(dict(cfg=name, mode=mode, pen=pen, trans=trans, ops=ops, generic=True))
     allfails = []
     for i in range(0, len(hists), 60):
         allfails += evaluate(exe, drv, qdrv, hists[i:i + 60], stats, True, samples)
@@ -609,6 +631,9 @@ def run(tier):
         'route_comparisons': stats['comparisons'], 'known_degenerate_chord_cases': stats['known_degenerate_chord'],
         'known_selective_reroute_not_flagged_cases': stats.get('known_reroute_silent', 0),
         'corpus_histories': stats['corpus'], 'exhaustive': False,
+        'directed_families': {'what': 'noop = moves leaving the polygon unchanged (zero / cancelling / same polygon / there and back); addmove = add + moves + '
+                                      'relative move of one shape in one transaction; only = transactions of only deletions / only additions / only endpoint changes',
+                              'variant_histogram': stats['directed_variants']},
         'contains_family': {'what': 'histories with a connector endpoint strictly inside a shape that later leaves it (move / resize / delete; moved '
                                     'back; another shape moved or added onto it) followed by a change that recomputes the endpoint\'s visibility',
                             'route_comparisons': stats['contains_comparisons'],
